@@ -173,6 +173,40 @@ func StaticVsEval(c *core.Check, src string, expr hclsyntax.Expression, fam stri
 			}
 		}
 	}
+	// (d) the static views are views: asking for one of them (in particular the RELATIVE traversal,
+	// which is derived from the absolute one) must not change what the same expression object
+	// answers afterwards, statically or when evaluated
+	if !tdiags.HasErrors() {
+		snap := append(hcl.Traversal(nil), trav...) // the returned slice may be the expression's own
+		var trav2 hcl.Traversal
+		var t2d, v2d hcl.Diagnostics
+		var val2 cty.Value
+		rec, panicked := core.Guard(func() {
+			rel, rd := hcl.RelTraversalForExpr(expr)
+			if !rd.HasErrors() && len(rel) != len(snap) {
+				c.Violation("static-view-unstable/rel-length/"+fam, fmt.Sprintf("%q: RelTraversalForExpr has %d steps, AbsTraversalForExpr %d", src, len(rel), len(trav)), vec)
+			}
+			trav2, t2d = hcl.AbsTraversalForExpr(expr)
+			val2, v2d = expr.Value(ctx)
+		})
+		if panicked {
+			c.Violation("static-view-unstable/panic/"+fam, fmt.Sprintf("%q: after RelTraversalForExpr, asking the same expression again panics: %v", src, rec), vec)
+			return false
+		}
+		c.Count("static_view_stability", 1)
+		if t2d.HasErrors() {
+			c.Violation("static-view-unstable/abs-after-rel/"+fam, fmt.Sprintf("%q: AbsTraversalForExpr fails after RelTraversalForExpr was called on the same expression: %s", src, t2d.Error()), vec)
+			return false
+		}
+		if m := travEqual(snap, trav2); m != "" || snap.IsRelative() != trav2.IsRelative() {
+			c.Violation("static-view-unstable/abs-after-rel/"+fam, fmt.Sprintf("%q: AbsTraversalForExpr answers differently after RelTraversalForExpr was called on the same expression: %s (relative: %v then %v)", src, m, snap.IsRelative(), trav2.IsRelative()), vec)
+			return false
+		}
+		if v2d.HasErrors() != vdiags.HasErrors() || (!v2d.HasErrors() && !val2.RawEquals(val)) {
+			c.Violation("static-view-unstable/value-after-rel/"+fam, fmt.Sprintf("%q: evaluates to %s (errors=%v) before and %s (errors=%v) after its static views were requested", src, e1.Describe(val), vdiags.HasErrors(), e1.Describe(val2), v2d.HasErrors()), vec)
+			return false
+		}
+	}
 	return true
 }
 
